@@ -66,7 +66,7 @@ func loadCase(path string) (*target, []byte, caseFile, error) {
 // the same signature as the generated tier: silent while the finding is
 // listed, failing again if an applied fix is reverted.
 func TestReplayKnown(t *testing.T) {
-	currentTest = t.Name()
+	currentTest, curT = t.Name(), t
 	dir := os.Getenv("VERIF_REPLAYS")
 	if dir == "" {
 		dir = "../../replays/C09"
@@ -94,7 +94,7 @@ func TestReplayKnown(t *testing.T) {
 
 // TestReplaySeeds runs every target on its hostile constants and valid packets (deterministic smoke tier).
 func TestReplaySeeds(t *testing.T) {
-	currentTest = t.Name()
+	currentTest, curT = t.Name(), t
 	for _, n := range targetNames() {
 		tg := targets[n]
 		for _, s := range tg.seeds() {
@@ -105,6 +105,7 @@ func TestReplaySeeds(t *testing.T) {
 
 // TestReplaySanity checks the harness itself: the scripted preludes reach the states they claim.
 func TestReplaySanity(t *testing.T) {
+	curT = t
 	for _, kind := range []string{"lcp", "ipcp", "ipv6cp"} {
 		for _, want := range fsmStates {
 			for cfg := byte(0); cfg < 4; cfg++ {
@@ -151,7 +152,7 @@ func TestReplayFile(t *testing.T) {
 	if p == "" {
 		return
 	}
-	currentTest = t.Name()
+	currentTest, curT = t.Name(), t
 	tg, data, _, err := loadCase(p)
 	if err != nil {
 		t.Fatalf("INCONCLUSIVE: %v", err)
@@ -165,6 +166,7 @@ func TestReplayIsolated(t *testing.T) {
 	if v == "" {
 		return
 	}
+	curT = t
 	i := strings.Index(v, ":")
 	tg, data, _, err := loadCase(v[i+1:])
 	if err != nil || tg.name != v[:i] {
